@@ -503,6 +503,101 @@ func RunC14(t *kernel.Tape, o Opts) *Result {
 			break
 		}
 	}
+	// Forked read-only phase: several simulated callers look things up on the
+	// populated client at the same time. Lookups are reads: the race oracle
+	// must stay silent and every answer must equal the answer given serially.
+	if len(res.Violations) == 0 && len(m.vers) > 0 && t.Bool(1, 2) {
+		res.Config = "history+readers"
+		type rd struct {
+			kind int
+			vk   resolve.VersionKey
+		}
+		var keys []resolve.VersionKey
+		for vk := range m.vers {
+			keys = append(keys, vk)
+		}
+		resolve.SortVersionKeys(keys)
+		nr := t.Range(2, 4)
+		progs := make([][]rd, nr)
+		for i := range progs {
+			for j, n := 0, t.Range(2, 6); j < n; j++ {
+				vk := keys[t.Choose(len(keys))]
+				kind := t.Choose(4)
+				if kind == 3 {
+					vk.VersionType = resolve.Requirement
+					if t.Bool(1, 2) {
+						vk.Version = map[resolve.System]string{resolve.NPM: "*", resolve.Maven: "[0,)", resolve.PyPI: ""}[vk.System]
+					} else if vk.Version != "not-a-version" {
+						vk.Version = c14ExactReq(vk.System, vk.Version)
+					}
+				}
+				progs[i] = append(progs[i], rd{kind, vk})
+			}
+		}
+		do := func(r rd) string {
+			ctx := context.Background()
+			switch r.kind {
+			case 0:
+				v, err := c.Version(ctx, r.vk)
+				return fmt.Sprintf("%v|%s{%s}", err, v.Version, uni.AttrString(v.AttrSet))
+			case 1:
+				vs, err := c.Versions(ctx, r.vk.PackageKey)
+				out := fmt.Sprint(err)
+				for _, v := range vs {
+					out += "|" + v.Version + "{" + uni.AttrString(v.AttrSet) + "}"
+				}
+				return out
+			case 2:
+				rs, err := c.Requirements(ctx, r.vk)
+				return fmt.Sprintf("%v|%v", err, reqMultiset(r.vk.System, rs))
+			default:
+				vs, err := c.MatchingVersions(ctx, r.vk)
+				out := fmt.Sprint(err)
+				for _, v := range vs {
+					out += "|" + v.Version + "{" + uni.AttrString(v.AttrSet) + "}"
+				}
+				return out
+			}
+		}
+		cfg := drawSched(t, []string{"read"})
+		sch := kernel.NewSched(t, cfg)
+		got := make([][]string, nr)
+		fns := make([]func(*kernel.Task), nr)
+		for i := range progs {
+			i := i
+			fns[i] = func(*kernel.Task) {
+				for _, r := range progs[i] {
+					sch.Yield(kernel.KindOp, "read", true)
+					got[i] = append(got[i], do(r))
+				}
+			}
+		}
+		okRun := sch.Run(fns)
+		res.Switches = sch.SwitchCount
+		res.SchedHash = fmt.Sprintf("%016x", sch.Hash)
+		if !okRun {
+			res.Status = "stalled"
+			return res
+		}
+		res.RaceSteps = sch.Races()
+		fault(res, "concurrent_reader_preemptions", sch.SwitchCount)
+		for i := range progs {
+			if pv := sch.TaskPanic(i); pv != nil {
+				violate(res, "panic", "panic:reader", nops, "reader %d panicked: %v", i, pv)
+			}
+			for j, r := range progs[i] {
+				if j < len(got[i]) {
+					if want := do(r); got[i][j] != want {
+						violate(res, "model-mismatch", "model-mismatch:concurrent-read", nops, "reader %d read %d: got %s, the same lookup done serially gives %s", i, j, got[i][j], want)
+					}
+				}
+			}
+		}
+		k.step = nops
+		k.explicit = false
+		k.sweep()
+		probe(res, "reader_phases", 1)
+	}
 	fault(res, "readditions_of_existing_key", readds)
 	fault(res, "deleted_flagged_additions", deleted)
 	probe(res, "reads", reads)
@@ -512,7 +607,7 @@ func RunC14(t *kernel.Tape, o Opts) *Result {
 		}
 	}
 	res.Yields = len(k.trace)
-	res.Distinct = hashStrings(k.trace...)
+	res.Distinct = hashStrings(append(append([]string(nil), k.trace...), res.SchedHash)...)
 	{
 		ctx := context.Background()
 		obs := append([]string(nil), k.trace...)
@@ -526,7 +621,7 @@ func RunC14(t *kernel.Tape, o Opts) *Result {
 		}
 		res.Digest = hashStrings(obs...)
 	}
-	if len(res.Violations) > 0 || o.WantDetail {
+	if len(res.Violations) > 0 || len(res.RaceSteps) > 0 || o.WantDetail {
 		res.Scenario = map[string]any{"history": k.trace}
 	}
 	return res
